@@ -28,13 +28,14 @@ type c34World struct {
 	isd       *gen.ISD
 	base, upd gen.TRC
 	roots     map[string]gen.Ent
+	keys      []gen.Key // keys owned by the world's entities
 }
 
 func buildC34World(pool *gen.Pool, rng *rand.Rand) *c34World {
 	T0 := time.Date(2031, 3, 1, 12, 0, 0, 0, time.UTC)
 	day := 24 * hour
-	keys := pool.Draw(rng, 10)
-	w := &c34World{T0: T0, roots: map[string]gen.Ent{}}
+	keys := pool.Drawer(rng).Take(10)
+	w := &c34World{T0: T0, keys: keys, roots: map[string]gen.Ent{}}
 	w.isd = gen.NewISD(keys[:6], 1, 2, 2, 2, 2, T0.Add(-100*day), T0.Add(100*day))
 	w.isd.Roots[1] = gen.NewRoot(keys[5], "isd1 short-lived root", w.isd.IAOf(2), T0.Add(-90*day), T0.Add(20*day))
 	w.base = w.isd.BaseTRC(1, T0.Add(-50*day), T0.Add(10*day))
@@ -162,14 +163,8 @@ func runC34Verify(r *mon.Run, w *c34World, pool *gen.Pool, rng *rand.Rand, p c34
 	}
 	p.Time = t.Format(time.RFC3339Nano)
 
-	caKey, asKey := pool.DrawCurve(rng, p.CAKey), pool.DrawCurve(rng, p.ASKey)
-	for asKey == caKey {
-		asKey = pool.DrawCurve(rng, p.ASKey)
-	}
-	twin := pool.DrawCurve(rng, p.CAKey)
-	for twin == caKey || twin == asKey {
-		twin = pool.DrawCurve(rng, "P-256")
-	}
+	dr := pool.Drawer(rng, w.keys...)
+	caKey, asKey, twin := dr.Next(p.CAKey), dr.Next(p.ASKey), dr.Next(p.CAKey)
 	plan := gen.ChainPlan{IA: w.isd.IAOf(5), CAIA: w.isd.IAOf(1), ASDev: p.ASDev, CADev: p.CADev, Issuer: p.Issuer,
 		CANotBefore: c0, CANotAfter: c1, ASNotBefore: a0, ASNotAfter: a1}
 	pair := gen.IssueChain(plan, root, caKey, asKey, twin)
@@ -349,12 +344,13 @@ var c34FetchDevs = []string{"as-no-ia", "as-ia-wildcard", "as-ia-noncanonical", 
 
 func runC34Provider(r *mon.Run, pool *gen.Pool, rng *rand.Rand, i int, tl timeline, st *c34Stats) {
 	ctx := context.Background()
-	w := buildWorld(pool, rng, 1, tl, time.Now())
+	dr := pool.Drawer(rng)
+	w := buildWorld(dr, 1, tl, time.Now())
 	d := newTrustDB()
 	defer d.Close()
 	w.insertTRCs(d)
 	ia := w.ISD.IAOf(3)
-	asKey := pool.Draw(rng, 1)[0]
+	asKey := dr.Next("")
 	pc := c34ProvCase{Case: i, Timeline: tl.Name}
 	pc.Mode = pick(rng, []string{"local", "local", "fetch", "mixed"})
 
@@ -391,7 +387,7 @@ func runC34Provider(r *mon.Run, pool *gen.Pool, rng *rand.Rand, i int, tl timeli
 			// AS certificate expiring within seconds of the call
 			cs.NAOff = time.Duration(rng.IntN(7)-3) * time.Second
 		}
-		chain, f := w.issue(pool, rng, cs, asKey)
+		chain, f := w.issue(dr, cs, asKey)
 		e := &c34ProvChain{Spec: cs, Where: where, Facts: f}
 		facts[rawKey(chain)] = e
 		order = append(order, rawKey(chain))
@@ -515,7 +511,7 @@ func checkC34(r *mon.Run) {
 		"a CA path length other than 0 (certificates.rst says 'should be 0') is treated as a constraint violation",
 		"duplicate ISD-AS attributes and an expired predecessor TRC inside the grace period are observed but not judged (statement silent)",
 	}
-	pool := gen.NewPool(48, 6, 6)
+	pool := gen.NewPool(64, 8, 8)
 	st := &c34Stats{}
 
 	rngA := r.Rand("c34-verify")
